@@ -45,12 +45,16 @@ type c15Case struct {
 const c15Dwell = (c15Head + c15Idle) / 2
 
 type c15Env struct {
-	fwds   map[string]*fwd
-	origin *peer
-	slow   sync.Map // path -> delay
+	fwds      map[string]*fwd
+	origin    *peer
+	originTLS *peer
+	slow      sync.Map // path -> delay
 }
 
-func newC15Env() *c15Env {
+func newC15Env() *c15Env { return newC15EnvIdle(c15Idle) }
+
+// newC15EnvIdle: the proxies of every (or only the named) stacking with the C15 limits and the given idle limit.
+func newC15EnvIdle(idle time.Duration, only ...string) *c15Env {
 	env := &c15Env{fwds: map[string]*fwd{}}
 	ca, _ := harnessCAs()
 	log := &hitLog{}
@@ -63,8 +67,12 @@ func newC15Env() *c15Env {
 	env.origin = startOrigin("O", log, nil, resp)
 	cert := ca.leaf([]string{"origin.test"}, "")
 	ot := startOrigin("OT", log, &tls.Config{Certificates: []tls.Certificate{cert}}, resp)
+	env.originTLS = ot
 	for st := range c15Phases {
-		fc := fwdCfg{Name: "fwd", Localhost: "allow", IdleTimeout: c15Idle, ReadHeaderTimeout: c15Head, TLSHandshake: c15TLS, PPTimeout: c15PP}
+		if len(only) > 0 && only[0] != st {
+			continue
+		}
+		fc := fwdCfg{Name: "fwd", Localhost: "allow", IdleTimeout: idle, ReadHeaderTimeout: c15Head, TLSHandshake: c15TLS, PPTimeout: c15PP}
 		switch st {
 		case "tls":
 			fc.TLS = true
